@@ -155,7 +155,7 @@ pub fn run_once(w: &Workload, slot: &Path, mut sched: Sched) -> RunResult {
         let mut extra = BTreeMap::new();
         extra.insert("SIM_LIVE".to_string(), live.display().to_string());
         let spec = Spec {
-            exe: format!("{TOOLS_DIR}/flagdrv"),
+            exe: format!("{}/flagdrv", tools_dir()),
             args: vec![script.join(",")],
             cwd: slot.to_path_buf(),
             home: home.clone(),
@@ -340,7 +340,7 @@ pub fn run_once(w: &Workload, slot: &Path, mut sched: Sched) -> RunResult {
         let mut extra = BTreeMap::new();
         extra.insert("SIM_LIVE".to_string(), live.display().to_string());
         let spec = Spec {
-            exe: format!("{TOOLS_DIR}/flagdrv"),
+            exe: format!("{}/flagdrv", tools_dir()),
             args: vec![script.join(","), "observer".into()],
             cwd: slot.to_path_buf(),
             home: home.clone(),
